@@ -169,13 +169,16 @@ Start ==
 
 Resolve(t, how) ==
   /\ tpc[t] = "run"
-  /\ tpc' = [tpc EXCEPT ![t] = IF how = "ok" THEN "res_ok" ELSE "res_fail"]
+  /\ tpc' = [tpc EXCEPT ![t] = CASE how = "ok" -> "res_ok" [] how = "fail" -> "res_fail" [] OTHER -> "canc_run"]
   /\ outcome' = [outcome EXCEPT ![t] = how]
   /\ rq' = Append(rq, <<"T", t>>)
   /\ UNCHANGED <<script, bound, value, sq, must, cbs, pend, shutd, ev, exc, dpc, dcont, spc, sowner, souter, sreg, wcount,
                  hres, hexc, fails, firstexc>>
 Complete(t) == Resolve(t, "ok")
 Fail(t) == Resolve(t, "fail")
+\* the body raises CancelledError on its own (the future it awaits is cancelled): "the task is considered complete
+\* and the pool and other background tasks continue running"
+FailCancelled(t) == Resolve(t, "cancel")
 
 ----------------------------------------------------------------------------
 \* ---- the driver ---------------------------------------------------------------------------------
@@ -290,10 +293,10 @@ Step ==
        [] e[1] = "O" -> OuterCb
        [] e[1] = "W" -> WaitCb
 
-Next == Start \/ (\E t \in Tasks : Complete(t) \/ Fail(t)) \/ Step
+Next == Start \/ (\E t \in Tasks : Complete(t) \/ Fail(t) \/ FailCancelled(t)) \/ Step
 
 Spec == Init /\ [][Next]_vars
-FairSpec == Spec /\ WF_vars(Step) /\ WF_vars(Start) /\ \A t \in Tasks : WF_vars(Complete(t) \/ Fail(t))
+FairSpec == Spec /\ WF_vars(Step) /\ WF_vars(Start) /\ \A t \in Tasks : WF_vars(Complete(t) \/ Fail(t) \/ FailCancelled(t))
 
 ----------------------------------------------------------------------------
 \* ---- properties ---------------------------------------------------------------------------
@@ -310,13 +313,13 @@ C20_Bound == Cardinality({t \in Tasks : tpc[t] \in Holding}) <= bound
 \* code of its body runs) and nothing can start any more
 CancelPending(t) == tpc[t] \in {"canc_acq", "canc_run", "shutwoken"} \/ must[t]
 C20_ExitQuiescent ==
-  /\ hres = "returned" => \A t \in Tasks : tpc[t] = "done"
+  /\ hres = "returned" => \A t \in Tasks : tpc[t] = "done" \/ (tpc[t] = "cancelled" /\ outcome[t] = "cancel")
   /\ hres = "raised" => \A t \in Tasks : tpc[t] \in Terminal \cup {"idle"} \/ CancelPending(t)
 
 \* it raises the first exception (of a background task or of the with-body), and returns only if there was none
 C20_FirstException ==
   /\ hres = "raised" => firstexc # 0 /\ hexc = firstexc
-  /\ hres = "returned" => firstexc = 0 /\ fails = <<>> /\ \A t \in Tasks : tpc[t] = "done"
+  /\ hres = "returned" => firstexc = 0 /\ fails = <<>> /\ \A t \in Tasks : outcome[t] \in {"ok", "cancel"}
 
 \* after the first failure every unfinished task is cancelled: nothing can enter the semaphore any more
 C20_ShutdownCancels == shutd => \A t \in Tasks : tpc[t] # "acq" /\ (tpc[t] \in {"new", "grant"} => must[t])
